@@ -29,9 +29,10 @@ import (
 const (
 	c21Short    = 1 * time.Millisecond
 	c21Long     = 4 * time.Millisecond
-	c21WaitLive = 1500 * time.Millisecond // ">> timers + bounded failures": may only expire when the wait cannot complete
-	c21WaitDead = 30 * time.Millisecond   // after Close has returned nothing serves WaitPub any more
+	c21WaitLive = 3 * time.Second       // ">> timers + bounded failures": may only expire when the wait cannot complete
+	c21WaitDead = 30 * time.Millisecond // after Close has returned nothing serves WaitPub any more
 	c21Watchdog = 20 * time.Second
+	c21MaxSlow  = 6 // expiries of long contexts after which a scenario stops (they are in the trace; TLC decides)
 )
 
 func c21Cid(v int) cid.Cid {
@@ -297,7 +298,7 @@ func c21Stress(to *atomic.Int32) {
 	rng := vRand()
 	runs := 400
 	if !vQuick() {
-		runs = 4000
+		runs = 2500
 	}
 	flagged, nsusp := 0, 0
 	for r := 0; r < runs; r++ {
@@ -353,7 +354,10 @@ func c21Stress(to *atomic.Int32) {
 				keep = true
 			}
 		}
-		s.flush(keep)
+		s.flush(keep || to.Load() >= c21MaxSlow)
+		if to.Load() >= c21MaxSlow {
+			break
+		}
 	}
 	fmt.Printf("c21 stress: %d runs, %d flagged by the heuristic, %d of them recorded\n", runs, nsusp, flagged)
 }
@@ -363,7 +367,7 @@ func c21Random(to *atomic.Int32) {
 	rng := vRand()
 	runs := 40
 	if !vQuick() {
-		runs = 400
+		runs = 250
 	}
 	if n := vEnvInt("C21_RUNS", 0); n > 0 {
 		runs = n
@@ -409,5 +413,8 @@ func c21Random(to *atomic.Int32) {
 			return
 		}
 		s.flush(true)
+		if to.Load() >= c21MaxSlow {
+			break
+		}
 	}
 }
